@@ -1,7 +1,7 @@
 import MgpuModel.C02Txn
 /-! C02 (transaction path) — lemmas: with ONE lane the concatenation
     departed ++ post buffer ++ pipeline (exit → entry) ++ waiting is the issue sequence. -/
-namespace C02.Txn
+namespace C02.Txn.Old
 
 /-- the items of a lane from the exit to the entry -/
 def laneItems (l : Lane) : List Item := l.filterMap id
@@ -594,4 +594,4 @@ theorem run_fifo_noStall (c : Cfg) (ts : List Tk) (h : noStall c (init c) ts = t
   have := prefix_range_eq _ _ _ hi
   simpa [run] using this
 
-end C02.Txn
+end C02.Txn.Old
